@@ -265,26 +265,65 @@ def run_dump_cell(cell, obj, fails):
     try:
         prior = "# previous content\n"
         if target == "stream":
-            s = io.StringIO()
+            # the open text stream of the caller: an in-memory buffer, a real file, or any of the other writers Python hands out
+            # (tempfile wrapper, codecs writer, a plain object with write()) - whatever it is, it receives the class-level text
+            sk = cell.get("stream_kind", "StringIO")
+            sp = os.path.join(d, "stream.out")
+            if sk == "StringIO":
+                s = io.StringIO()
+                value = s.getvalue
+            elif sk == "file":
+                s = open(sp, "w")
+                value = lambda: (s.flush(), open(sp).read())[1]
+            elif sk == "tempfile":
+                import tempfile
+                s = tempfile.NamedTemporaryFile("w+", dir=d, suffix="." + fmt)
+                value = lambda: (s.flush(), open(s.name).read())[1]
+            elif sk == "codecs":
+                import codecs
+                s = codecs.open(sp, "w", "utf-8")
+                value = lambda: (s.flush(), open(sp, encoding="utf-8").read())[1]
+            elif sk == "duck":
+                class _Duck:
+                    closed = False
+                    def __init__(self):
+                        self.parts = []
+                    def write(self, t):
+                        self.parts.append(t)
+                        return len(t)
+                    def close(self):
+                        self.closed = True
+                s = _Duck()
+                value = lambda: "".join(s.parts)
+            else:
+                raise HarnessError(f"bad stream kind {sk}")
+            where += f" stream={sk}"
             s.write(prior)
             try:
                 ml.dump(obj, s, fmt, mode=mode, **kw)
                 raised = None
             except Exception as e:
                 raised = e
-            if not supported:
-                if not isinstance(raised, ValueError):
-                    fails.append(Fail("unsupported-format-not-ValueError:dump-to-stream", f"{where}: {raised!r}"))
-                return "rejected"
-            if raised is not None:
-                fails.append(Fail(f"raises:dump-to-stream:{exc_sig(raised) or type(raised).__name__}", f"{where}: {raised!r}"))
+            try:
+                if not supported:
+                    if not isinstance(raised, ValueError):
+                        fails.append(Fail("unsupported-format-not-ValueError:dump-to-stream", f"{where}: {raised!r}"))
+                    return "rejected"
+                if raised is not None:
+                    fails.append(Fail(f"raises:dump-to-stream:{exc_sig(raised) or type(raised).__name__}", f"{where}: {raised!r}"))
+                    return "codec"
+                if s.closed:
+                    fails.append(Fail("caller-stream-closed:dump", where))
+                    return "codec"
+                if value() != prior + exp:
+                    fails.append(Fail("text-differs-from-class-method:dump-to-stream", where))
                 return "codec"
-            if s.closed:
-                fails.append(Fail("caller-stream-closed:dump", where))
-                return "codec"
-            if s.getvalue() != prior + exp:
-                fails.append(Fail("text-differs-from-class-method:dump-to-stream", where))
-            return "codec"
+            finally:
+                if sk != "StringIO":
+                    try:
+                        s.close()
+                    except Exception:
+                        pass
         p = os.path.join(d, "out." + (fmt if cell["fmtarg"] == "suffix" else "dat"))
         with open(p, "w") as f:
             f.write(prior)
@@ -350,6 +389,9 @@ def dump_cells():
                 for fmtarg in (("explicit", "suffix") if target != "stream" else ("explicit",)):
                     for kw in range(len(KWS)):
                         yield {"fn": "dump", "fmt": fmt, "target": target, "mode": mode, "fmtarg": fmtarg, "kw": kw}
+                        if target == "stream" and mode == "a" and kw in (0, 1):
+                            for sk in ("file", "tempfile", "codecs", "duck"):
+                                yield {"fn": "dump", "fmt": fmt, "target": target, "mode": mode, "fmtarg": fmtarg, "kw": kw, "stream_kind": sk}
         for kw in range(len(KWS)):
             yield {"fn": "dumps", "fmt": fmt, "kw": kw}
 
@@ -384,7 +426,26 @@ def check_matrix(recipe) -> list[Fail]:
             path = os.path.join(d, "gen." + fmt_real)
             with open(path, "w") as f:
                 f.write(text)
+        tail = inp.get("tail")
+        if tail and text is not None:
+            # the END of the file is not clean (a writer died inside a later structure, an editor left blank lines, a stray line):
+            # whatever the class-level readers make of it - the first structure, an error - the entry points make the same of it
+            if tail == "trunc":
+                text = text[: max(1, (len(text) * 4) // 5)]
+            elif tail == "trunc_line":
+                text = text[: max(1, (len(text) * 4) // 5)].rsplit("\n", 1)[0] + "\n"
+            elif tail == "blank":
+                text = text + "\n\n"
+            elif tail == "garbage":
+                text = text + "this line does not belong here\n"
+            else:
+                raise HarnessError(f"bad tail {tail}")
+            path = os.path.join(d, "tail." + fmt_real)
+            with open(path, "w") as f:
+                f.write(text)
         n_units, keys, labels = 0, [], {}
+        if tail:
+            labels[f"unclean_end={tail}"] = 1
         cells = list(load_cells()) if recipe["cells"] == "all" else recipe["cells"]
         for cell in cells:
             if cell["fn"] not in ("load", "loads", "load_all", "loads_all"):
@@ -515,6 +576,9 @@ def enum_matrix(tier, shard, nshards):
         for fl in files:
             if i % nshards == shard:
                 yield {"input": {"fmt": fmt, "file": fl}, "cells": "all"}
+                if fmt != "cdxml" and fl.startswith(("pentane", "dendrobine")):
+                    for tl in ("trunc", "trunc_line", "blank", "garbage"):
+                        yield {"input": {"fmt": fmt, "file": fl, "tail": tl}, "cells": "all"}
             i += 1
 
 
@@ -546,13 +610,16 @@ def _clean(r):
     return r
 
 
+_TAILS = st.sampled_from([None, None, None, "trunc", "trunc_line", "blank", "garbage"])
+
+
 def strat_gen(tier):
     molr = chem.molecule_recipe(max_atoms=8, max_bonds=8, attribs=False, mol2_safe=True, min_atoms=1).map(_clean)
     ensr = chem.ensemble_recipe(max_atoms=6, max_bonds=6, max_conf=3, attribs=False, mol2_safe=True, min_atoms=1).filter(lambda r: len(r["confs"]) >= 2).map(_clean)
     cells = st.lists(st.sampled_from(list(load_cells())), min_size=6, max_size=14)
     return st.one_of(
-        st.fixed_dictionaries({"input": st.fixed_dictionaries({"fmt": st.sampled_from(["xyz", "mol2"]), "mol": molr}), "cells": cells}),
-        st.fixed_dictionaries({"input": st.fixed_dictionaries({"fmt": st.sampled_from(["xyz", "mol2"]), "mol": ensr, "multi": st.just(True)}), "cells": cells}),
+        st.fixed_dictionaries({"input": st.fixed_dictionaries({"fmt": st.sampled_from(["xyz", "mol2"]), "mol": molr, "tail": _TAILS}), "cells": cells}),
+        st.fixed_dictionaries({"input": st.fixed_dictionaries({"fmt": st.sampled_from(["xyz", "mol2"]), "mol": ensr, "multi": st.just(True), "tail": _TAILS}), "cells": cells}),
     )
 
 
